@@ -85,7 +85,13 @@ def run_instance(args):
                 except Exception as e:      # noqa
                     d["native"] = dict(status="replay-crash", error=repr(e))
                     d["reproduced"] = False
-                if not d["reproduced"] and vc.path_id in ex.gc_deferred_paths:
+                if (vc.name == "no-unexpected-exception" and not d["reproduced"] and d.get("native", {}).get("status") == "ok"
+                        and d.get("native_under_assumed_contracts", {}).get("status", "ok") == "ok"):
+                    # the model raised where CPython, on the very same input, does not: a gap of the library model, not a verdict
+                    d["result"] = "unknown"
+                    d["backend"] = d["backend"] + "+model-raises-cpython-does-not"
+                    refuted -= 1
+                elif not d["reproduced"] and vc.path_id in ex.gc_deferred_paths:
                     # the path left a finaliser pending because the object was still referenced from the heap; when CPython runs
                     # it is outside the model, so a refutation that does not replay is no verdict
                     d["result"] = "unknown"
